@@ -35,6 +35,15 @@ def pylab_rms_flat(a):
     return np.sqrt(np.mean(np.absolute(a) ** 2))
 
 
+def _promote_integers(a):
+    """Return *a* as an array; integer samples are converted to double
+    precision so that their products cannot wrap around."""
+    a = np.asarray(a)
+    if a.dtype.kind in 'iub':
+        a = a.astype(float)
+    return a
+
+
 def CORRELATION(x, y=None, maxlags=None, norm='unbiased'):
     r"""Correlation function
 
@@ -86,11 +95,11 @@ def CORRELATION(x, y=None, maxlags=None, norm='unbiased'):
     """
     assert norm in ['unbiased','biased', 'coeff', None]
     #transform lag into list if it is an integer
-    x = np.array(x)
+    x = _promote_integers(np.array(x))
     if y is None:
         y = x
     else:
-        y = np.array(y)
+        y = _promote_integers(np.array(y))
 
     # N is the max of x and y
     N = max(len(x), len(y))
@@ -201,6 +210,8 @@ def xcorr(x, y=None, maxlags=None, norm='biased'):
     if y is None:
         y = x
     assert len(x) == len(y), 'x and y must have the same length. Add zeros if needed'
+    x = _promote_integers(x)
+    y = _promote_integers(y)
 
     if maxlags is None:
         maxlags = N-1
